@@ -1556,8 +1556,7 @@ class TimeStr(TimeFormat):
         main_str, _, fraction = time_str.partition(".")
         if fraction and set(fraction) != "0":
             # Truncate fraction to 6 digits due to limits of datetime
-            frac = float(f"0.{fraction}")
-            fraction = f"{frac:8.6f}"[2:]
+            fraction = fraction[:6]
             time_str = f"{main_str}.{fraction}"
             return datetime.strptime(time_str, cls._dt_fmt)
         else:
